@@ -48,7 +48,8 @@ def family(rng, name, n, amb=12):
     raise ValueError(name)
 
 
-SCIPY = {"euclidean": "euclidean", "cosine": "cosine", "correlation": "correlation", "manhattan": "cityblock", "jaccard": "jaccard"}
+SCIPY = {"euclidean": "euclidean", "cosine": "cosine", "correlation": "correlation", "manhattan": "cityblock", "jaccard": "jaccard",
+         "dot": "cosine"}     # dot = cosine of the rows as given (the index normalises them itself), clamped like cosine
 
 
 def true_knn(X, metric, k, Q=None):
@@ -59,7 +60,7 @@ def true_knn(X, metric, k, Q=None):
     else:
         D = cdist(B.astype(np.float64), A.astype(np.float64), SCIPY[metric])
     D = np.nan_to_num(D, nan=1.0)
-    if metric == "cosine":
+    if metric in ("cosine", "dot"):
         D = np.minimum(D, 1.0)            # the index reports cosine clamped to [0, 1] (saturation at similarity <= 0)
     return D, np.sort(D, axis=1)[:, :k]
 
@@ -98,6 +99,9 @@ def recall_case(res, rng, fam, metric, cfg, n):
     gr = recall_by_distance(D, kth, gi)
     case = {"family": fam, "metric": metric, "n": n, **cfg}
     DQ, kthq = true_knn(X, metric, k, Qd)
+    if sp.issparse(Qd) and rng.integers(2):
+        from harness import api
+        Qd = api.unsort_csr(rng, Qd.tocsr())            # the same queries with their columns listed out of order
     qi, qdst = idx.query(Qd, k=k)
     qr = recall_by_distance(DQ, kthq, qi)
     res.case(("recall", fam, metric, n, tuple(sorted(cfg.items()))), True,
@@ -200,7 +204,8 @@ def run(res, tier, seed, search):
     fams.append(("sparse_clustered", "euclidean"))
     if tier == "quick" and not search:
         plan = [(fams[(seed + i) % (len(fams) - 1)], modes[(seed + i) % len(modes)]) for i in range(3)] + [(("sparse_clustered", "euclidean"), modes[0]),
-                                                                                                             (("sparse", "cosine"), modes[3]), (("sparse", "euclidean"), modes[1])]
+                                                                                                             (("sparse", "cosine"), modes[3]), (("sparse", "euclidean"), modes[1]),
+                                                                                                             (("gaussian", "dot"), modes[0])]
         n = 1200
     else:
         plan = [(f, m) for f in fams for m in modes]
